@@ -15,7 +15,7 @@ def handle (op real : String) : Verdict := Id.run do
     if t.startsWith "L:" then continue
     let arg := (t.drop 1).toString
     match t.front with
-    | 'c' => match arg.toNat? with
+    | 'c' => match ((arg.splitOn ":").headD arg).toNat? with
       | some i => if i < n then s := step s (.connect i)
       | none => pure ()
     | 'r' => match arg.splitOn ":" with
